@@ -37,7 +37,7 @@ type c01Exp struct {
 	// closedRepeat: a Shutdown returned nil after an EARLIER Shutdown had been cut short by its context
 	// and was still draining (recorded finding "repeated Shutdown while an earlier Shutdown had not completed")
 	closedRepeat bool
-	lastErr   []string
+	lastErr      []string
 }
 
 func (e *c01Exp) ExportSpans(ctx context.Context, spans []ReadOnlySpan) error {
@@ -164,7 +164,7 @@ func c01Body(cfg c01Cfg, sc c01Scn, res *string) func(x *sched.Exec) {
 		var results []string
 		firstShutdownAt := -1 // step at which the first Shutdown call was made
 		shutdownCalls := 0
-		psInFlight := 0 // provider Shutdown calls that have not returned yet
+		psInFlight := 0               // provider Shutdown calls that have not returned yet
 		shutdownFailedBefore := false // an earlier Shutdown call had already returned an error (cut short by its context)
 		checkFlush := func(what string, calledAt int, err error) {
 			results = append(results, fmt.Sprintf("%s=%v", what, err))
@@ -344,7 +344,7 @@ func c01Scenarios(thorough bool) []c01Scn {
 		{"S7", [][]string{{"E:s1", "U:u1", "E:s2"}, {"E:s3"}}, []string{"F", "S"}},
 		{"R1", [][]string{{"RE:s1", "RE:s2"}, {"PF"}}, []string{"PS"}}, // real provider, real spans
 		{"R2", [][]string{{"RE:s1", "RE:s2", "PFc"}}, []string{"PS"}},  // provider ForceFlush cut short by its context: an error, or everything exported
-		{"R3", [][]string{{"RE:s1", "RE:s2"}, {"PS"}, {"PS"}}, nil}, // two provider Shutdown calls at once
+		{"R3", [][]string{{"RE:s1", "RE:s2"}, {"PS"}, {"PS"}}, nil},    // two provider Shutdown calls at once
 		{"S6", [][]string{{"S"}, {"S"}, {"E:s1"}}, nil},
 		{"S11", [][]string{{"E:s1", "E:s2", "E:s3", "S"}}, nil}, // sequential: several batches left to the shutdown drain
 	}
